@@ -175,6 +175,14 @@ class World:
             yield po, E('Ok', [S({'amount_in': I(ain, 'u64'), 'amount_out': I(aout, 'u64'), 'next_price': I(nxt, 'u128'), 'fee_amount': I(fe, 'u64')})])
         S_.append((re.compile(r'swap_math::compute_swap$'), compute_swap))
 
+        def fees(e_, callee, args, path):
+            vals = [e_.deref(a).t for a in args]
+            fn = e_.mir.find('swap_manager::calculate_fees')
+            for p2, rv in e_.run(fn, args, path.with_trace(('event', 'fees_call', vals))):
+                if isinstance(rv, Panic): yield p2, rv
+                else: yield p2.with_trace(('event', 'fees_ret', rv.get('0').t, rv.get('1').t)), rv
+        S_.append((re.compile(r'(^|::)calculate_fees$'), fees))
+
         tf = tick_fields()
 
         def get_tick(e, callee, args, path):
@@ -213,7 +221,8 @@ class World:
             nl = T.sub(liq, net) if a_to_b else T.add(liq, net)
             ok = T.and_(T.cmp('>=', nl, C(0)), T.cmp('<=', nl, C(U128)))
             p1 = e.fork(path, ok)
-            if p1: yield p1.with_trace(('event', 'cross', liq, net, nl)), E('Ok', [S([Opaque('tick_update'), I(nl, 'u128')])])
+            fga, fgb = e.deref(args[3]).t, e.deref(args[4]).t
+            if p1: yield Path(p1.pc, p1.trace + [('event', 'cross', liq, net, nl), ('event', 'cross_args', liq, fga, fgb)]), E('Ok', [S([Opaque('tick_update'), I(nl, 'u128')])])
             p2 = e.fork(path, T.not_(ok))
             if p2: yield p2, E('Err', [E('LiquidityOverflowOrUnderflow')])
         S_.append((re.compile(r'(^|::)calculate_update$'), calc_update))
@@ -347,6 +356,29 @@ def post_goals(w, ret, rem_t, price_t, g, fsum_t, pfee_t, liq_t, ctick_t):
     return d
 
 
+def wiring_goals(w, fr0, fr1, path):
+    """C06 inside the loop: every step's fee is split by calculate_fees against the liquidity that step traded on, with the pool's protocol rate,
+    starting from the running protocol fee / growth, and the results become the running values"""
+    steps = [ev[2] for ev in path.trace if ev[1] == 'step']
+    calls = [ev[2] for ev in path.trace if ev[1] == 'fees_call']
+    rets = [(ev[2], ev[3]) for ev in path.trace if ev[1] == 'fees_ret']
+    d = {}
+    d['W0_one_fee_split_per_step'] = TRUE if len(steps) == len(calls) == len(rets) else FALSE
+    if len(steps) != len(calls) or len(calls) != len(rets) or not steps: return d
+    pf, gr = w.t(fr0, 'curr_protocol_fee'), w.t(fr0, 'curr_fee_growth_global_input')
+    for k, (st, c, r) in enumerate(zip(steps, calls, rets)):
+        d[f'W1_fee_split_on_step_liquidity:{k}'] = T.and_(T.cmp('=', c[0], st['fee']), T.cmp('=', c[2], st['liq']), T.cmp('=', c[1], w.wp.get('protocol_fee_rate').t))
+        d[f'W2_fee_split_continues_running_totals:{k}'] = T.and_(T.cmp('=', c[3], pf), T.cmp('=', c[4], gr))
+        pf, gr = r
+    for ev in path.trace:
+        if ev[1] == 'cross_args':
+            mine, other = (ev[3], ev[4]) if w.a_to_b else (ev[4], ev[3])
+            oth_pool = w.wp.get('fee_growth_global_b' if w.a_to_b else 'fee_growth_global_a').t
+            d['W4_crossing_uses_updated_growth_and_step_liquidity'] = T.and_(T.cmp('=', mine, gr), T.cmp('=', other, oth_pool), T.cmp('=', ev[2], steps[-1]['liq']))
+    d['W3_running_totals_updated'] = T.and_(T.cmp('=', w.t(fr1, 'curr_protocol_fee'), pf), T.cmp('=', w.t(fr1, 'curr_fee_growth_global_input'), gr))
+    return d
+
+
 def crossing_goals(w, fr0, fr1, path):
     """C10-c for one outer iteration (a_to_b: ticks in (c', c]; b_to_a: (c, c']): the arbitrary initialized witness tick, if passed, was the
     searched tick and was crossed exactly once; no other tick was updated"""
@@ -457,6 +489,8 @@ def config_task(exact_in, a_to_b, limit_mode, unroll):
                 g1 = w.ghosts_after(g0, p)
                 for name, goal in w.inv(r.frame, g1).items():
                     ob(f'step:{i}:{name}', p.pc + w._inv_side, goal, events=p.trace)
+                for name, goal in wiring_goals(w, fr_h, r.frame, p).items():
+                    ob(f'step:{i}:{name}', p.pc, goal, events=p.trace)
                 for name, goal in crossing_goals(w, fr_h, r.frame, p).items():
                     ob(f'step:{i}:{name}', p.pc, goal, True, ' '.join(ev[1] for ev in p.trace if ev[1] != 'nowrap'), events=p.trace)
                 nw = [ev[3] for ev in p.trace if ev[1] == 'nowrap']
